@@ -9,10 +9,14 @@
    second half of this file (proofs in proofs/VersionHistory.v): it needs in addition that the version handed to the
    stamping primitives is newer than the last version of every job that ran before -- the model stamps with the live
    world version, and a job's last version is always strictly below it. C07_write_detected_iff shows that this is exactly
-   what is needed: a write stamped v is seen iff last < v.  Still not proved: histories with destruction or moves. *)
+   what is needed: a write stamped v is seen iff last < v.
+   Histories WITH DESTRUCTION (destroyNow while unlocked, swap-remove relocation, recycled ids) are in the third part of
+   this file (proofs in proofs/VersionDestroy{Arch,Inv,Step,Hist}.v).  Still not proved: archetype moves (assign / remove
+   component), clear, deferred (locked) structural calls. *)
 Require Import Coq.Lists.List Coq.NArith.NArith Coq.ZArith.ZArith Coq.Arith.Arith Coq.micromega.Lia.
 From Mustache Require Import Res Iter Manager Palette.
-From Mustache.proofs Require Import VersionProofs IterCover VersionHistory.
+From Mustache.proofs Require Import ManagerMoves VersionProofs IterCover VersionHistory
+  VersionDestroyArch VersionDestroyInv VersionDestroyStep VersionDestroyHist.
 Import ListNotations.
 
 (* ---- (1) check_and_set: flag, stamped positions, everything else ---- *)
@@ -492,4 +496,492 @@ Proof.
     inversion Ha; subst a. split; vm_compute; reflexivity. }
   split; [unfold MASK_BITS; lia|]. split; [vm_compute; reflexivity|]. split; [vm_compute; reflexivity|].
   split; [repeat constructor|]. split; [lia|]. split; vm_compute; reflexivity.
+Qed.
+
+(* ==================================================================================================================== *)
+(* HISTORY LEVEL WITH DESTRUCTION (proofs/VersionDestroyArch.v, VersionDestroyInv.v, VersionDestroyStep.v,
+   VersionDestroyHist.v).  Alphabet `vopd` = VOld o (every operation o of the alphabet above, creation included) and
+   VDestroyNow tid h (destroyNow while unlocked: Manager.destroy_now_unlocked -> arch_remove -> release_id).
+   `dstep` is one operation, `drun` a script.
+
+   What destroyNow does (Archetype::remove, archetype.cpp): the LAST member of the entity's archetype is popped; unless it
+   is the destroyed entity itself it is moved into the hole (internalMove) and its location follows; BOTH version chunks
+   -- the one of the hole and the one the last member left -- are stamped with the LIVE world version in every component
+   and every global stamp of the archetype becomes that version; chunk_versions_ keeps its length (stale version chunks
+   stay behind the population until the next emplace cuts them off); the id goes onto the free list with its slot version
+   bumped, and a later create hands it out again.
+
+   The invariant VInvD replaces VInv: arch_okd (chunk stamps cover AT LEAST the version chunks of the population) for
+   arch_ok; the free list is a duplicate-free chain of empty_slots ids from next_slot, all without archetype in their
+   location (free_okF), for "no free slot"; mem_ok (every member of an archetype carries the version of its slot and is
+   where its location says) in addition to loc_ok.
+
+   PROPER scripts (proper_run, a boolean computed along the run): every VDestroyNow is applied to a handle that is not
+   valid (nothing happens) or is located in an archetype.  isEntityValid compares slot versions only, so a handle
+   (id, current slot version) of an id that is ON THE FREE LIST passes it; destroyNow on such a handle -- one no create
+   ever returned -- releases the id a second time and corrupts the free list, in the C++ as in the model; such calls
+   are excluded.  Not covered: archetype moves (assign/remove component), clear, locked (deferred) structural calls. *)
+
+(* ---- (1) the invariant of every proper run ---- *)
+Theorem C07_history_invariants_with_destruction : forall n cis setup s0 js ops st,
+  population n cis setup s0 -> fresh_jobs js -> (N.of_nat (length ops) < WV_NULL)%N ->
+  proper_run ops (s0, js) = true -> drun ops (s0, js) = Ok st ->
+  VInvD st /\ (wv (fst st) <= N.of_nat (length ops))%N.
+Proof. exact history_invariants_d. Qed.
+Print Assumptions C07_history_invariants_with_destruction.
+
+(* one operation: VDestroyNow leaves the world version, its cached copy and the jobs alone (wv_effect_d); for the old
+   operations wv_effect as above *)
+Theorem C07_step_invariant_with_destruction : forall st o st' out_,
+  VInvD st -> (wv (fst st) + 1 < WV_NULL)%N -> properb (fst st) o = true -> dstep st o = Ok (st', out_) ->
+  VInvD st' /\ wv_effect_d st o st' out_.
+Proof. exact dstep_inv. Qed.
+Print Assumptions C07_step_invariant_with_destruction.
+
+(* ---- (2) the exact effect of destroyNow on populations, stamps and locations ---- *)
+(* removal a a' idx w (VersionDestroyStep.v): a has S last members, idx <= last; a' has the same mask and chunk size and
+   `last` members: every position p < last other than idx keeps its member, position idx (if idx < last) holds the former
+   last member; restamped: every global stamp is w, the chunk stamps of version chunks last/chunk and idx/chunk are w in
+   every component, all other chunk stamps (also the stale ones) are unchanged, the stamp vector keeps its length *)
+Theorem C07_destroy_effect : forall s js tid (h : handle) s' out_,
+  VInvD (s, js) -> properb s (VDestroyNow tid h) = true -> step s (ODestroyNow tid h) = Ok (s', out_) ->
+  VInvD (s', js) /\ wv s' = wv s /\ cached s' = cached s /\
+  ((s' = s /\ is_valid s h = false) \/
+   exists l ai a a', is_valid s h = true /\ nth_error (locs s) (N.to_nat (fst h)) = Some l /\ l_arch l = Some ai /\
+     nth_error (archs s) ai = Some a /\ nth_error (am_ents a) (l_idx l) = Some h /\
+     archs s' = upd (archs s) ai a' /\ removal a a' (l_idx l) (wv s)).
+Proof. exact destroy_d. Qed.
+Print Assumptions C07_destroy_effect.
+
+(* Archetype::remove in isolation, with its version stamps and the location table *)
+Theorem C07_arch_remove_effect : forall s ai idx h skip s' a,
+  nth_error (archs s) ai = Some a -> am_size a = length (am_ents a) -> arch_remove s ai idx h skip = Ok s' ->
+  exists a' last, length (am_ents a) = S last /\ fr2 s' = fr2 s /\ archs s' = upd (archs s) ai a' /\
+    am_mask a' = am_mask a /\ am_chunk a' = am_chunk a /\ am_size a' = last /\ 0 < am_chunk a /\
+    restamped a a' (wv s) (fun ch => ch = last / am_chunk a \/ ch = idx / am_chunk a) /\
+    ((idx = last /\ am_ents a' = removelast (am_ents a) /\
+      N.to_nat (fst h) < length (locs s) /\ locs s' = upd (locs s) (N.to_nat (fst h)) default_loc)
+     \/
+     (idx <> last /\ exists src dst, nth_error (am_ents a) last = Some src /\ nth_error (am_ents a) idx = Some dst /\
+        am_ents a' = removelast (upd (am_ents a) idx src) /\
+        N.to_nat (fst dst) < length (locs s) /\ N.to_nat (fst src) < length (locs s) /\
+        locs s' = upd (upd (locs s) (N.to_nat (fst dst)) default_loc) (N.to_nat (fst src)) {| l_arch := Some ai; l_idx := idx |})).
+Proof. exact arch_remove_effect. Qed.
+Print Assumptions C07_arch_remove_effect.
+
+(* createEntity with the free list in play: fresh or recycled id; the stamps of the new state come from the old state or
+   are those of the version chunk of the new entity *)
+Theorem C07_create_effect_with_destruction : forall s js tid m sids via s' out_,
+  VInvD (s, js) -> step s (OCreate tid m sids via) = Ok (s', out_) ->
+  VInvD (s', js) /\ wv s' = wv s /\ sframe (s, js) (s', js) /\
+  exists h ai a3 idx,
+    out_ = RHandle h /\ nth_error (archs s') ai = Some a3 /\ S idx = length (am_ents a3) /\ nth_error (am_ents a3) idx = Some h /\
+    (forall i, i < length (am_gver a3) -> nth (length (am_gver a3) * (idx / am_chunk a3) + i) (am_cver a3) 0%N = wv s) /\
+    (forall k a i, nth_error (archs s) k = Some a -> nth_error (am_ents a) i = Some h -> False) /\
+    nth_error (locs s') (N.to_nat (fst h)) = Some {| l_arch := Some ai; l_idx := idx |} /\
+    (forall ai0 a' k i, nth_error (archs s') ai0 = Some a' -> i < length (am_gver a') ->
+       (nth (length (am_gver a') * k + i) (am_cver a') 0 <= stampof s ai0 k i)%N \/ (ai0 = ai /\ k = idx / am_chunk a3)).
+Proof. exact create_d. Qed.
+Print Assumptions C07_create_effect_with_destruction.
+
+(* what a run hands to the job, under the weaker invariant *)
+Theorem C07_run_handed_char_with_destruction : forall s js jn par tov wk cap st' out_,
+  VInvD (s, js) -> 0 < cap ->
+  vstep (s, js) (VRun jn par tov wk cap) = Ok (st', out_) ->
+  exists j, nth_error js jn = Some j /\
+  forall h, handed out_ h <->
+    exists ai a idx, nth_error (archs s) ai = Some a /\ jmatch j a = true /\ processed j a idx /\
+                     nth_error (am_ents a) idx = Some h.
+Proof. exact run_handed_char_d. Qed.
+Print Assumptions C07_run_handed_char_with_destruction.
+
+(* ---- (3) C07: relocated by the removal of another entity ---- *)
+(* relocates s a b ai A: a is alive in archetype ai (= A); b is the LAST member of A and is not a.
+   The relocation itself: after destroyNow a, b sits in a's former slot and every component stamp of that version chunk is
+   the world version (carries ... (wv s)) *)
+Theorem C07_destroy_relocates : forall s js tid (a b : handle) ai A st2 out_t c ci,
+  VInvD (s, js) -> relocates s a b ai A -> cindex (am_mask A) c = Some ci -> c < MASK_BITS ->
+  dstep (s, js) (VDestroyNow tid a) = Ok (st2, out_t) ->
+  snd st2 = js /\ wv (fst st2) = wv s /\ carries (fst st2) b ai (am_mask A) c (wv s) /\
+  exists l A', nth_error (locs s) (N.to_nat (fst a)) = Some l /\ nth_error (archs (fst st2)) ai = Some A' /\
+    nth_error (am_ents A') (l_idx l) = Some b /\ l_idx l < length (am_ents A) - 1.
+Proof. exact destroy_relocates. Qed.
+Print Assumptions C07_destroy_relocates.
+
+(* population, then any proper script `pre`; in the state reached entity a is destroyed, which relocates b; then any proper
+   script `mid` over the extended alphabet without a run of job jn and without destroyNow b -- b may be relocated again by
+   further removals, entities may be created into recycled slots --; then jn runs (c in its check mask, c a component of
+   the archetype, the archetype matching its required mask): it is handed b. *)
+Theorem C07_history_relocated :
+  forall n cis setup s0 js pre st1 tid (a b : handle) ai A out_t st2 mid st3 jn par tov wk cap st4 out_ c j,
+  population n cis setup s0 -> fresh_jobs js ->
+  (N.of_nat (length pre) + N.of_nat (length mid) + 2 < WV_NULL)%N ->
+  proper_run pre (s0, js) = true -> drun pre (s0, js) = Ok st1 ->
+  relocates (fst st1) a b ai A ->
+  nth_error (snd st1) jn = Some j -> c < MASK_BITS -> mhas (j_check j) c = true -> mhas (am_mask A) c = true ->
+  mmatch (am_mask A) (job_required_mask j) = true ->
+  dstep st1 (VDestroyNow tid a) = Ok (st2, out_t) ->
+  drun mid st2 = Ok st3 -> proper_run mid st2 = true -> no_run_d jn mid -> not_destroyed b mid -> 0 < cap ->
+  vstep st3 (VRun jn par tov wk cap) = Ok (st4, out_) ->
+  handed out_ b.
+Proof. exact C07_relocated_pop. Qed.
+Print Assumptions C07_history_relocated.
+
+Theorem C07_history_relocated_from_invariant :
+  forall st1 tid (a b : handle) ai A out_t st2 mid st3 jn par tov wk cap st4 out_ c j,
+  VInvD st1 -> (wv (fst st1) + N.of_nat (length mid) + 2 < WV_NULL)%N ->
+  relocates (fst st1) a b ai A ->
+  nth_error (snd st1) jn = Some j -> c < MASK_BITS -> mhas (j_check j) c = true -> mhas (am_mask A) c = true ->
+  mmatch (am_mask A) (job_required_mask j) = true ->
+  dstep st1 (VDestroyNow tid a) = Ok (st2, out_t) ->
+  drun mid st2 = Ok st3 -> proper_run mid st2 = true -> no_run_d jn mid -> not_destroyed b mid -> 0 < cap ->
+  vstep st3 (VRun jn par tov wk cap) = Ok (st4, out_) ->
+  handed out_ b.
+Proof. exact C07_relocated_core. Qed.
+Print Assumptions C07_history_relocated_from_invariant.
+
+(* ---- (4) C07 (mutable access / markDirty) over the extended alphabet ---- *)
+(* as C07_history, but `pre` and `mid` range over the extended alphabet: between the modification of h and the run of jn
+   other entities may be destroyed (h may change its position by relocations, any number of times) and created; h itself
+   is not destroyed in `mid` (not_destroyed h mid: no VDestroyNow h occurs in it) *)
+Theorem C07_history_with_destruction :
+  forall n cis setup s0 js pre st1 o out_t st2 mid st3 jn par tov wk cap st4 out_ h c ai idx a ci j,
+  population n cis setup s0 -> fresh_jobs js ->
+  (N.of_nat (length pre) + N.of_nat (length mid) + 2 < WV_NULL)%N ->
+  proper_run pre (s0, js) = true -> drun pre (s0, js) = Ok st1 ->
+  is_touch o h c -> touch (fst st1) h c ai idx a ci ->
+  nth_error (snd st1) jn = Some j -> c < MASK_BITS -> mhas (j_check j) c = true ->
+  mmatch (am_mask a) (job_required_mask j) = true ->
+  vstep st1 o = Ok (st2, out_t) ->
+  drun mid st2 = Ok st3 -> proper_run mid st2 = true -> no_run_d jn mid -> not_destroyed h mid -> 0 < cap ->
+  vstep st3 (VRun jn par tov wk cap) = Ok (st4, out_) ->
+  handed out_ h.
+Proof. exact C07_touched_pop. Qed.
+Print Assumptions C07_history_with_destruction.
+
+Theorem C07_history_with_destruction_from_invariant :
+  forall st1 o out_t st2 mid st3 jn par tov wk cap st4 out_ h c ai idx a ci j,
+  VInvD st1 -> (wv (fst st1) + N.of_nat (length mid) + 2 < WV_NULL)%N ->
+  is_touch o h c -> touch (fst st1) h c ai idx a ci ->
+  nth_error (snd st1) jn = Some j -> c < MASK_BITS -> mhas (j_check j) c = true ->
+  mmatch (am_mask a) (job_required_mask j) = true ->
+  vstep st1 o = Ok (st2, out_t) ->
+  drun mid st2 = Ok st3 -> proper_run mid st2 = true -> no_run_d jn mid -> not_destroyed h mid -> 0 < cap ->
+  vstep st3 (VRun jn par tov wk cap) = Ok (st4, out_) ->
+  handed out_ h.
+Proof. exact C07_touched_core. Qed.
+Print Assumptions C07_history_with_destruction_from_invariant.
+
+(* the tracking lemma behind (3) and (4): `carries s b ai m c W` -- b is a member of archetype ai (mask m) and the stamp of
+   (version chunk of b's position, component c) is at least W -- survives every proper script that does not destroy b *)
+Theorem C07_stamp_follows_entity : forall b ai m c W jn ops st st',
+  VInvD st -> (wv (fst st) + N.of_nat (length ops) < WV_NULL)%N -> proper_run ops st = true -> c < MASK_BITS ->
+  drun ops st = Ok st' -> not_destroyed b ops -> no_run_d jn ops -> carries (fst st) b ai m c W ->
+  carries (fst st') b ai m c W /\ nth_error (snd st') jn = nth_error (snd st) jn.
+Proof. exact carries_run. Qed.
+Print Assumptions C07_stamp_follows_entity.
+
+(* ---- (5) C07 for created entities over the extended alphabet (fresh or recycled slot) ---- *)
+Theorem C07_history_created_with_destruction :
+  forall n cis setup s0 js pre st1 tid m sids via st2 h mid st3 jn par tov wk cap st4 out_ j c,
+  population n cis setup s0 -> fresh_jobs js ->
+  (N.of_nat (length pre) + N.of_nat (length mid) + 2 < WV_NULL)%N ->
+  proper_run pre (s0, js) = true -> drun pre (s0, js) = Ok st1 ->
+  nth_error (snd st1) jn = Some j ->
+  vstep st1 (VCreate tid m sids via) = Ok (st2, RHandle h) ->
+  (forall ai a idx, nth_error (archs (fst st2)) ai = Some a -> nth_error (am_ents a) idx = Some h ->
+     mhas (am_mask a) c = true /\ mmatch (am_mask a) (job_required_mask j) = true) ->
+  c < MASK_BITS -> mhas (j_check j) c = true ->
+  drun mid st2 = Ok st3 -> proper_run mid st2 = true -> no_run_d jn mid -> not_destroyed h mid -> 0 < cap ->
+  vstep st3 (VRun jn par tov wk cap) = Ok (st4, out_) ->
+  handed out_ h.
+Proof. exact C07_created_pop. Qed.
+Print Assumptions C07_history_created_with_destruction.
+
+(* ---- non-vacuity: concrete histories with destruction ---- *)
+Ltac vm_conj := repeat (match goal with |- _ /\ _ => split; [vm_compute; reflexivity|] end); vm_compute; reflexivity.
+(* the population of the examples above (five entities {0,1} in one archetype, version chunks of 2; job 0 writes 0 and
+   reads+checks 1); update(); run of job 0 (everything); update() *)
+Definition pre_exd : list vopd := map VOld pre_ex.
+Definition st1d_ex : vstate := get_res (drun pre_exd (s0_ex, jobs_ex)) vst_dummy.
+(* destroyNow of the FIRST entity: the last one, (4,0), moves into slot 0 *)
+Definition st2d_ex : vstate := fst (get_res (dstep st1d_ex (VDestroyNow 0 (0, 0)%N)) (vst_dummy, RNone)).
+Definition midd_ex : list vopd := [VOld (VUpdate false); VOld (VRun 2 true 0 3 16); VOld (VUpdate true)].
+Definition st3d_ex : vstate := get_res (drun midd_ex st2d_ex) vst_dummy.
+
+Lemma VInvD_pair st : VInvD st -> VInvD (fst st, snd st).
+Proof. destruct st. exact (fun H => H). Qed.
+
+Lemma VInvD_st1d_ex : VInvD st1d_ex.
+Proof.
+  destruct population_ex as (Hp & Hj).
+  refine (proj1 (C07_history_invariants_with_destruction 4 cis2 setup_ex s0_ex jobs_ex pre_exd st1d_ex Hp Hj _ _ _)); vm_compute; reflexivity.
+Qed.
+
+Example C07_history_invariants_with_destruction_example :
+  population 4 cis2 setup_ex s0_ex /\ fresh_jobs jobs_ex /\
+  (N.of_nat (length (pre_exd ++ VDestroyNow 0 (0, 0)%N :: midd_ex)) < WV_NULL)%N /\
+  proper_run (pre_exd ++ VDestroyNow 0 (0, 0)%N :: midd_ex) (s0_ex, jobs_ex) = true /\
+  drun (pre_exd ++ VDestroyNow 0 (0, 0)%N :: midd_ex) (s0_ex, jobs_ex) = Ok st3d_ex /\
+  wv (fst st3d_ex) = 5%N /\ empty_slots (fst st3d_ex) = 1 /\ next_slot (fst st3d_ex) = 0%N.
+Proof.
+  split; [apply population_ex|]. split; [apply population_ex|]. vm_conj.
+Qed.
+
+(* the relocation: job 0 (last run at version 1) is handed version chunk 0, where (4,0) now sits next to (1,0); the version
+   chunk the last one left (chunk 2) is stamped too but holds no entity any more; chunk 1 is not handed over *)
+Example C07_history_relocated_example :
+  exists out_t st4 out_ A j,
+  population 4 cis2 setup_ex s0_ex /\ fresh_jobs jobs_ex /\
+  (N.of_nat (length pre_exd) + N.of_nat (length midd_ex) + 2 < WV_NULL)%N /\
+  proper_run pre_exd (s0_ex, jobs_ex) = true /\ drun pre_exd (s0_ex, jobs_ex) = Ok st1d_ex /\
+  relocates (fst st1d_ex) (0, 0)%N (4, 0)%N 0 A /\
+  nth_error (snd st1d_ex) 0 = Some j /\ 1 < MASK_BITS /\ mhas (j_check j) 1 = true /\ mhas (am_mask A) 1 = true /\
+  mmatch (am_mask A) (job_required_mask j) = true /\
+  dstep st1d_ex (VDestroyNow 0 (0, 0)%N) = Ok (st2d_ex, out_t) /\
+  drun midd_ex st2d_ex = Ok st3d_ex /\ proper_run midd_ex st2d_ex = true /\ no_run_d 0 midd_ex /\ not_destroyed (4, 0)%N midd_ex /\ 0 < 16 /\
+  vstep st3d_ex (VRun 0 true 0 3 16) = Ok (st4, out_) /\
+  handles_of out_ = [(4, 0); (1, 0)]%N /\
+  map (fun a => (am_ents a, am_gver a, am_cver a)) (archs (fst st1d_ex)) =
+    [([(0, 0); (1, 0); (2, 0); (3, 0); (4, 0)], [1; 0], [1; 0; 1; 0; 1; 0])]%N /\
+  map (fun a => (am_ents a, am_gver a, am_cver a)) (archs (fst st2d_ex)) =
+    [([(4, 0); (1, 0); (2, 0); (3, 0)], [3; 3], [3; 3; 1; 0; 3; 3])]%N.
+Proof.
+  eexists. eexists. eexists. eexists. eexists.
+  split; [apply population_ex|]. split; [apply population_ex|]. split; [vm_compute; reflexivity|].
+  split; [vm_compute; reflexivity|]. split; [vm_compute; reflexivity|].
+  split.
+  { split; [vm_compute; reflexivity|]. split; [eexists; split; [vm_compute; reflexivity|reflexivity]|].
+    split; [vm_compute; reflexivity|]. split; [vm_compute; reflexivity|discriminate]. }
+  split; [vm_compute; reflexivity|]. split; [unfold MASK_BITS; lia|]. split; [vm_compute; reflexivity|].
+  split; [vm_compute; reflexivity|]. split; [vm_compute; reflexivity|]. split; [vm_compute; reflexivity|].
+  split; [vm_compute; reflexivity|]. split; [vm_compute; reflexivity|].
+  split; [repeat constructor; discriminate|]. split; [repeat constructor|]. split; [lia|].
+  split; [vm_compute; reflexivity|]. split; [vm_compute; reflexivity|]. split; vm_compute; reflexivity.
+Qed.
+
+(* six entities: the last one, (5,0), leaves version chunk 2 where (4,0) stays behind: job 0 is handed chunk 0 -- (5,0) and
+   (1,0) -- AND the chunk the last one left -- (4,0) *)
+Definition setup6_ex : list op := setup_ex ++ [OCreate 0 3%N [] false].
+Definition s06_ex : mst := get_res (setup_run (init 4 cis2) setup6_ex) (init 0 []).
+Definition st16_ex : vstate := get_res (drun pre_exd (s06_ex, jobs_ex)) vst_dummy.
+Definition st26_ex : vstate := fst (get_res (dstep st16_ex (VDestroyNow 0 (0, 0)%N)) (vst_dummy, RNone)).
+
+Lemma population6_ex : population 4 cis2 setup6_ex s06_ex.
+Proof. split; [repeat constructor|vm_compute; reflexivity]. Qed.
+
+Lemma VInvD_st16_ex : VInvD st16_ex.
+Proof.
+  refine (proj1 (C07_history_invariants_with_destruction 4 cis2 setup6_ex s06_ex jobs_ex pre_exd st16_ex population6_ex (proj2 population_ex) _ _ _));
+    vm_compute; reflexivity.
+Qed.
+
+Example C07_destroy_relocates_example :
+  exists out_t A st4 out_,
+  VInvD (fst st16_ex, snd st16_ex) /\ relocates (fst st16_ex) (0, 0)%N (5, 0)%N 0 A /\ cindex (am_mask A) 1 = Some 1 /\ 1 < MASK_BITS /\
+  dstep (fst st16_ex, snd st16_ex) (VDestroyNow 0 (0, 0)%N) = Ok (st26_ex, out_t) /\
+  map (fun a => (am_ents a, am_gver a, am_cver a)) (archs (fst st26_ex)) =
+    [([(5, 0); (1, 0); (2, 0); (3, 0); (4, 0)], [3; 3], [3; 3; 1; 0; 3; 3])]%N /\
+  vstep st26_ex (VRun 0 true 0 3 16) = Ok (st4, out_) /\ handles_of out_ = [(5, 0); (1, 0); (4, 0)]%N.
+Proof.
+  eexists. eexists. eexists. eexists.
+  split; [apply VInvD_pair, VInvD_st16_ex|].
+  split.
+  { split; [vm_compute; reflexivity|]. split; [eexists; split; [vm_compute; reflexivity|reflexivity]|].
+    split; [vm_compute; reflexivity|]. split; [vm_compute; reflexivity|discriminate]. }
+  split; [vm_compute; reflexivity|]. split; [unfold MASK_BITS; lia|]. split; [vm_compute; reflexivity|].
+  split; [vm_compute; reflexivity|]. split; vm_compute; reflexivity.
+Qed.
+
+(* the same history, from the invariant *)
+Example C07_history_relocated_from_invariant_example :
+  exists out_t st4 out_ A j,
+  VInvD st1d_ex /\ (wv (fst st1d_ex) + N.of_nat (length midd_ex) + 2 < WV_NULL)%N /\
+  relocates (fst st1d_ex) (0, 0)%N (4, 0)%N 0 A /\
+  nth_error (snd st1d_ex) 0 = Some j /\ 1 < MASK_BITS /\ mhas (j_check j) 1 = true /\ mhas (am_mask A) 1 = true /\
+  mmatch (am_mask A) (job_required_mask j) = true /\
+  dstep st1d_ex (VDestroyNow 0 (0, 0)%N) = Ok (st2d_ex, out_t) /\
+  drun midd_ex st2d_ex = Ok st3d_ex /\ proper_run midd_ex st2d_ex = true /\ no_run_d 0 midd_ex /\ not_destroyed (4, 0)%N midd_ex /\ 0 < 16 /\
+  vstep st3d_ex (VRun 0 true 0 3 16) = Ok (st4, out_) /\ handles_of out_ = [(4, 0); (1, 0)]%N.
+Proof.
+  eexists. eexists. eexists. eexists. eexists.
+  split; [exact VInvD_st1d_ex|]. split; [vm_compute; reflexivity|].
+  split.
+  { split; [vm_compute; reflexivity|]. split; [eexists; split; [vm_compute; reflexivity|reflexivity]|].
+    split; [vm_compute; reflexivity|]. split; [vm_compute; reflexivity|discriminate]. }
+  split; [vm_compute; reflexivity|]. split; [unfold MASK_BITS; lia|]. split; [vm_compute; reflexivity|].
+  split; [vm_compute; reflexivity|]. split; [vm_compute; reflexivity|]. split; [vm_compute; reflexivity|].
+  split; [vm_compute; reflexivity|]. split; [vm_compute; reflexivity|].
+  split; [repeat constructor; discriminate|]. split; [repeat constructor|]. split; [lia|].
+  split; vm_compute; reflexivity.
+Qed.
+
+(* hypotheses of the one-step theorems: destroyNow of the first entity in st1d_ex *)
+Example C07_step_invariant_with_destruction_example :
+  exists out_t,
+  VInvD st1d_ex /\ (wv (fst st1d_ex) + 1 < WV_NULL)%N /\ properb (fst st1d_ex) (VDestroyNow 0 (0, 0)%N) = true /\
+  dstep st1d_ex (VDestroyNow 0 (0, 0)%N) = Ok (st2d_ex, out_t) /\
+  slots (fst st2d_ex) = [{| s_id := 1; s_ver := 1 |}; {| s_id := 1; s_ver := 0 |}; {| s_id := 2; s_ver := 0 |};
+                         {| s_id := 3; s_ver := 0 |}; {| s_id := 4; s_ver := 0 |}]%N /\
+  map (fun l => (l_arch l, l_idx l)) (locs (fst st2d_ex)) = [(None, 0); (Some 0, 1); (Some 0, 2); (Some 0, 3); (Some 0, 0)] /\
+  next_slot (fst st2d_ex) = 0%N /\ empty_slots (fst st2d_ex) = 1.
+Proof.
+  eexists. split; [exact VInvD_st1d_ex|]. vm_conj.
+Qed.
+
+Example C07_destroy_effect_example :
+  exists s' out_,
+  VInvD (fst st1d_ex, snd st1d_ex) /\ properb (fst st1d_ex) (VDestroyNow 0 (0, 0)%N) = true /\
+  step (fst st1d_ex) (ODestroyNow 0 (0, 0)%N) = Ok (s', out_) /\ s' = fst st2d_ex /\
+  (* a handle that is not valid: nothing happens *)
+  properb (fst st2d_ex) (VDestroyNow 0 (0, 0)%N) = true /\
+  step (fst st2d_ex) (ODestroyNow 0 (0, 0)%N) = Ok (fst st2d_ex, RNone) /\
+  (* the handle (0,1) passes isEntityValid although id 0 is on the free list: destroyNow on it is NOT proper *)
+  is_valid (fst st2d_ex) (0, 1)%N = true /\ properb (fst st2d_ex) (VDestroyNow 0 (0, 1)%N) = false.
+Proof.
+  eexists. eexists. split; [apply VInvD_pair, VInvD_st1d_ex|]. split; [vm_compute; reflexivity|].
+  split; [vm_compute; reflexivity|]. vm_conj.
+Qed.
+
+(* ... and what the improper call does: id 0 is released twice, the free list (next_slot 0, 2 free slots) loops on slot 0,
+   and two createEntity calls both return id 0 -- the second while the first entity is alive *)
+Example C07_improper_destroy_corrupts_free_list :
+  exists s1 s2 s3,
+  step (fst st2d_ex) (ODestroyNow 0 (0, 1)%N) = Ok (s1, RNone) /\ empty_slots s1 = 2 /\ next_slot s1 = 0%N /\
+  nth_error (slots s1) 0 = Some {| s_id := 0; s_ver := 2 |}%N /\
+  step s1 (OCreate 0 3%N [] false) = Ok (s2, RHandle (0, 2)%N) /\
+  step s2 (OCreate 0 3%N [] false) = Ok (s3, RHandle (0, 2)%N).
+Proof. eexists. eexists. eexists. vm_conj. Qed.
+
+Example C07_arch_remove_effect_example :
+  exists a s',
+  nth_error (archs (fst st1d_ex)) 0 = Some a /\ am_size a = length (am_ents a) /\
+  arch_remove (fst st1d_ex) 0 0 (0, 0)%N 0%N = Ok s' /\
+  map (fun a => (am_ents a, am_gver a, am_cver a)) (archs s') = [([(4, 0); (1, 0); (2, 0); (3, 0)], [3; 3], [3; 3; 1; 0; 3; 3])]%N.
+Proof. eexists. eexists. split; [vm_compute; reflexivity|]. vm_conj. Qed.
+
+(* createEntity after the destruction: the slot of id 0 is recycled, the entity (0,1) is appended at position 4, whose
+   version chunk 2 -- the stale one -- is stamped *)
+Lemma VInvD_st2d_ex : VInvD st2d_ex.
+Proof.
+  destruct population_ex as (Hp & Hj).
+  refine (proj1 (C07_history_invariants_with_destruction 4 cis2 setup_ex s0_ex jobs_ex (pre_exd ++ [VDestroyNow 0 (0, 0)%N]) st2d_ex Hp Hj _ _ _));
+    vm_compute; reflexivity.
+Qed.
+
+Example C07_create_effect_with_destruction_example :
+  exists s',
+  VInvD (fst st2d_ex, snd st2d_ex) /\ step (fst st2d_ex) (OCreate 0 3%N [] false) = Ok (s', RHandle (0, 1)%N) /\
+  map (fun a => (am_ents a, am_gver a, am_cver a)) (archs s') =
+    [([(4, 0); (1, 0); (2, 0); (3, 0); (0, 1)], [3; 3], [3; 3; 1; 0; 3; 3])]%N /\ empty_slots s' = 0.
+Proof. eexists. split; [apply VInvD_pair, VInvD_st2d_ex|]. vm_conj. Qed.
+
+Example C07_run_handed_char_with_destruction_example :
+  exists st' out_,
+  VInvD (fst st2d_ex, snd st2d_ex) /\ 0 < 16 /\
+  vstep (fst st2d_ex, snd st2d_ex) (VRun 0 true 0 3 16) = Ok (st', out_) /\ handles_of out_ = [(4, 0); (1, 0)]%N.
+Proof. eexists. eexists. split; [apply VInvD_pair, VInvD_st2d_ex|]. split; [lia|]. split; vm_compute; reflexivity. Qed.
+
+(* the stamp follows the entity: (4,0) carries the stamp 3 of component 1 through the script *)
+Example C07_stamp_follows_entity_example :
+  VInvD st2d_ex /\ (wv (fst st2d_ex) + N.of_nat (length midd_ex) < WV_NULL)%N /\ proper_run midd_ex st2d_ex = true /\ 1 < MASK_BITS /\
+  drun midd_ex st2d_ex = Ok st3d_ex /\ not_destroyed (4, 0)%N midd_ex /\ no_run_d 0 midd_ex /\
+  carries (fst st2d_ex) (4, 0)%N 0 3%N 1 3%N.
+Proof.
+  split; [exact VInvD_st2d_ex|]. split; [vm_compute; reflexivity|]. split; [vm_compute; reflexivity|]. split; [unfold MASK_BITS; lia|].
+  split; [vm_compute; reflexivity|]. split; [repeat constructor|]. split; [repeat constructor; discriminate|].
+  eexists. exists 0, 1. split; [vm_compute; reflexivity|]. split; [vm_compute; reflexivity|]. split; [vm_compute; reflexivity|].
+  split; [vm_compute; reflexivity|]. vm_compute. discriminate.
+Qed.
+
+(* write access to component 1 of the LAST entity (4,0) (version chunk 2)  |  destroyNow of the first entity: (4,0) is
+   relocated to slot 0; manager update; destroyNow (2,0): (3,0) is relocated; createEntity into the recycled slot of id 2;
+   destroyNow of a handle that is not valid; world update  |  run of job 0: it is handed (4,0) (and the others: every
+   version chunk was stamped by the removals and the arrival) *)
+Definition st2t_ex : vstate := fst (get_res (vstep st1d_ex (VGetMut (4, 0)%N 1 (Some 7%Z))) (vst_dummy, RNone)).
+Definition midt_ex : list vopd :=
+  [VDestroyNow 0 (0, 0)%N; VOld (VUpdate false); VDestroyNow 0 (2, 0)%N; VOld (VCreate 0 3%N [] false); VDestroyNow 0 (9, 9)%N;
+   VOld (VUpdate true)].
+Definition st3t_ex : vstate := get_res (drun midt_ex st2t_ex) vst_dummy.
+
+Example C07_history_with_destruction_example :
+  exists out_t st4 out_ a j,
+  population 4 cis2 setup_ex s0_ex /\ fresh_jobs jobs_ex /\
+  (N.of_nat (length pre_exd) + N.of_nat (length midt_ex) + 2 < WV_NULL)%N /\
+  proper_run pre_exd (s0_ex, jobs_ex) = true /\ drun pre_exd (s0_ex, jobs_ex) = Ok st1d_ex /\
+  is_touch (VGetMut (4, 0)%N 1 (Some 7%Z)) (4, 0)%N 1 /\ touch (fst st1d_ex) (4, 0)%N 1 0 4 a 1 /\
+  nth_error (snd st1d_ex) 0 = Some j /\ 1 < MASK_BITS /\ mhas (j_check j) 1 = true /\
+  mmatch (am_mask a) (job_required_mask j) = true /\
+  vstep st1d_ex (VGetMut (4, 0)%N 1 (Some 7%Z)) = Ok (st2t_ex, out_t) /\
+  drun midt_ex st2t_ex = Ok st3t_ex /\ proper_run midt_ex st2t_ex = true /\ no_run_d 0 midt_ex /\ not_destroyed (4, 0)%N midt_ex /\ 0 < 16 /\
+  vstep st3t_ex (VRun 0 true 0 3 16) = Ok (st4, out_) /\
+  handles_of out_ = [(4, 0); (1, 0); (3, 0); (2, 1)]%N /\
+  map (fun a => (am_ents a, am_cver a)) (archs (fst st3t_ex)) = [([(4, 0); (1, 0); (3, 0); (2, 1)], [3; 3; 3; 3])]%N.
+Proof.
+  eexists. eexists. eexists. eexists. eexists.
+  split; [apply population_ex|]. split; [apply population_ex|]. split; [vm_compute; reflexivity|].
+  split; [vm_compute; reflexivity|]. split; [vm_compute; reflexivity|]. split; [left; eexists; reflexivity|].
+  split.
+  { split; [vm_compute; reflexivity|]. split; [eexists; split; [vm_compute; reflexivity|split; reflexivity]|].
+    split; [vm_compute; reflexivity|vm_compute; reflexivity]. }
+  split; [vm_compute; reflexivity|]. split; [unfold MASK_BITS; lia|]. split; [vm_compute; reflexivity|].
+  split; [vm_compute; reflexivity|]. split; [vm_compute; reflexivity|]. split; [vm_compute; reflexivity|].
+  split; [vm_compute; reflexivity|]. split; [repeat constructor|].
+  split; [repeat constructor; discriminate|]. split; [lia|].
+  split; [vm_compute; reflexivity|]. split; vm_compute; reflexivity.
+Qed.
+
+Example C07_history_with_destruction_from_invariant_example :
+  exists out_t st4 out_ a j,
+  VInvD st1d_ex /\ (wv (fst st1d_ex) + N.of_nat (length midt_ex) + 2 < WV_NULL)%N /\
+  is_touch (VGetMut (4, 0)%N 1 (Some 7%Z)) (4, 0)%N 1 /\ touch (fst st1d_ex) (4, 0)%N 1 0 4 a 1 /\
+  nth_error (snd st1d_ex) 0 = Some j /\ 1 < MASK_BITS /\ mhas (j_check j) 1 = true /\
+  mmatch (am_mask a) (job_required_mask j) = true /\
+  vstep st1d_ex (VGetMut (4, 0)%N 1 (Some 7%Z)) = Ok (st2t_ex, out_t) /\
+  drun midt_ex st2t_ex = Ok st3t_ex /\ proper_run midt_ex st2t_ex = true /\ no_run_d 0 midt_ex /\ not_destroyed (4, 0)%N midt_ex /\ 0 < 16 /\
+  vstep st3t_ex (VRun 0 true 0 3 16) = Ok (st4, out_).
+Proof.
+  eexists. eexists. eexists. eexists. eexists.
+  split; [exact VInvD_st1d_ex|]. split; [vm_compute; reflexivity|]. split; [left; eexists; reflexivity|].
+  split.
+  { split; [vm_compute; reflexivity|]. split; [eexists; split; [vm_compute; reflexivity|split; reflexivity]|].
+    split; [vm_compute; reflexivity|vm_compute; reflexivity]. }
+  split; [vm_compute; reflexivity|]. split; [unfold MASK_BITS; lia|]. split; [vm_compute; reflexivity|].
+  split; [vm_compute; reflexivity|]. split; [vm_compute; reflexivity|]. split; [vm_compute; reflexivity|].
+  split; [vm_compute; reflexivity|]. split; [repeat constructor|].
+  split; [repeat constructor; discriminate|]. split; [lia|]. vm_compute; reflexivity.
+Qed.
+
+(* entity (1,0) is destroyed; createEntity returns (1,1) -- the recycled slot --, appended behind (3,0); update; job 0 runs
+   and is handed the new entity (with the version chunks stamped by the removal) *)
+Definition prec_exd : list vopd := pre_exd ++ [VDestroyNow 0 (1, 0)%N].
+Definition st1c_exd : vstate := get_res (drun prec_exd (s0_ex, jobs_ex)) vst_dummy.
+Definition st2c_exd : vstate := fst (get_res (vstep st1c_exd (VCreate 0 3%N [] false)) (vst_dummy, RNone)).
+Definition st3c_exd : vstate := get_res (drun [VOld (VUpdate true)] st2c_exd) vst_dummy.
+
+Example C07_history_created_with_destruction_example :
+  exists st4 out_ j,
+  population 4 cis2 setup_ex s0_ex /\ fresh_jobs jobs_ex /\
+  (N.of_nat (length prec_exd) + N.of_nat (length [VOld (VUpdate true)]) + 2 < WV_NULL)%N /\
+  proper_run prec_exd (s0_ex, jobs_ex) = true /\ drun prec_exd (s0_ex, jobs_ex) = Ok st1c_exd /\
+  nth_error (snd st1c_exd) 0 = Some j /\
+  vstep st1c_exd (VCreate 0 3%N [] false) = Ok (st2c_exd, RHandle (1, 1)%N) /\
+  (forall ai a idx, nth_error (archs (fst st2c_exd)) ai = Some a -> nth_error (am_ents a) idx = Some (1, 1)%N ->
+     mhas (am_mask a) 1 = true /\ mmatch (am_mask a) (job_required_mask j) = true) /\
+  1 < MASK_BITS /\ mhas (j_check j) 1 = true /\
+  drun [VOld (VUpdate true)] st2c_exd = Ok st3c_exd /\ proper_run [VOld (VUpdate true)] st2c_exd = true /\
+  no_run_d 0 [VOld (VUpdate true)] /\ not_destroyed (1, 1)%N [VOld (VUpdate true)] /\ 0 < 16 /\
+  vstep st3c_exd (VRun 0 false 0 0 16) = Ok (st4, out_) /\ handles_of out_ = [(0, 0); (4, 0); (1, 1)]%N.
+Proof.
+  eexists. eexists. eexists.
+  split; [apply population_ex|]. split; [apply population_ex|]. split; [vm_compute; reflexivity|].
+  split; [vm_compute; reflexivity|]. split; [vm_compute; reflexivity|]. split; [vm_compute; reflexivity|].
+  split; [vm_compute; reflexivity|].
+  split.
+  { let x := eval vm_compute in (archs (fst st2c_exd)) in replace (archs (fst st2c_exd)) with x by (vm_compute; reflexivity).
+    intros ai a idx Ha _. destruct ai as [|n]; [|destruct n; discriminate].
+    inversion Ha; subst a. split; vm_compute; reflexivity. }
+  split; [unfold MASK_BITS; lia|]. split; [vm_compute; reflexivity|]. split; [vm_compute; reflexivity|].
+  split; [vm_compute; reflexivity|]. split; [repeat constructor|]. split; [repeat constructor|]. split; [lia|].
+  split; vm_compute; reflexivity.
 Qed.
